@@ -1,6 +1,10 @@
 """Translator: AsyncoreConnectionDispatcher (dispatcher_asyncore.py) of the CURRENT source -> Gen/SendBufCfg.lean.
-Behavioural probe on a real dispatcher over a socket pair: while one thread is inside the socket send of sendData,
-can the loop thread's handle_write enter its own socket send?  If not, buffer and socket are under one lock."""
+Two behavioural probes on a real dispatcher over a socket pair:
+ (1) while one thread is inside the socket send of sendData, can the loop thread's handle_write enter its own socket send?
+ (2) every access to `out_buffer` (a property on a subclass created here) during sendData and during handle_write is logged together
+     with whether a lock created by the dispatcher is held by the accessing thread.
+locked       := (1) says no  and  every access of a flush (handle_write, and everything in sendData after the append) holds a lock
+appendLocked := every access during sendData holds a lock (the append's load and store are inside the critical section of its flush)"""
 import socket
 import threading
 import time
@@ -10,12 +14,73 @@ import boot  # noqa: F401
 LEAN_FILE = "SendBufCfg.lean"
 
 
-def make_dispatcher():
+class TrackedLock(object):
+    """a lock that knows which thread holds it (wraps whatever the module's threading.Lock / RLock returns)"""
+    def __init__(self, real):
+        self._real = real
+        self.holder = None
+        self.depth = 0
+
+    def acquire(self, *a, **k):
+        ok = self._real.acquire(*a, **k)
+        if ok:
+            self.holder = threading.current_thread()
+            self.depth += 1
+        return ok
+
+    def release(self):
+        self.depth -= 1
+        if self.depth == 0:
+            self.holder = None
+        self._real.release()
+
+    def locked(self):
+        return self._real.locked() if hasattr(self._real, "locked") else self.depth > 0
+
+    __enter__ = acquire
+
+    def __exit__(self, *a):
+        self.release()
+
+
+def make_dispatcher(hook=None, lock_factory=None):
+    """a real AsyncoreConnectionDispatcher on a socket pair.  hook(kind) is called at every read ("get") / write ("set") of out_buffer;
+    lock_factory wraps every lock the dispatcher creates in its constructor"""
     from yowsup.layers.network.dispatcher.dispatcher import ConnectionCallbacks
-    from yowsup.layers.network.dispatcher.dispatcher_asyncore import AsyncoreConnectionDispatcher
+    import yowsup.layers.network.dispatcher.dispatcher_asyncore as DA
+    cls = DA.AsyncoreConnectionDispatcher
+    if hook is not None:
+        def _get(self):
+            hook("get")
+            return self.__dict__.get("_verif_out_buffer", b"")
+
+        def _set(self, v):
+            hook("set")
+            self.__dict__["_verif_out_buffer"] = v
+        cls = type("InstrumentedDispatcher", (cls,), {"out_buffer": property(_get, _set)})
     a, b = socket.socketpair()
     a.setblocking(False)
-    d = AsyncoreConnectionDispatcher(ConnectionCallbacks())
+    if lock_factory is not None:
+        class _T(object):
+            def __getattr__(self, name):
+                return getattr(threading, name)
+
+            def Lock(self):
+                return lock_factory(threading.Lock())
+
+            def RLock(self):
+                return lock_factory(threading.RLock())
+        saved = getattr(DA, "threading", None)
+        DA.threading = _T()
+        try:
+            d = cls(ConnectionCallbacks())
+        finally:
+            if saved is not None:
+                DA.threading = saved
+            else:
+                del DA.threading
+    else:
+        d = cls(ConnectionCallbacks())
     d.set_socket(a)
     d.connected = True
     d._connected = True
@@ -59,14 +124,56 @@ def probe():
     return not second_entered
 
 
+def probe_accesses():
+    """[(phase, kind, lock held by this thread?)] for one sendData and one handle_write, single-threaded"""
+    locks = []
+    log = []
+    phase = ["init"]
+
+    def factory(real):
+        t = TrackedLock(real)
+        locks.append(t)
+        return t
+
+    def hook(kind):
+        me = threading.current_thread()
+        log.append((phase[0], kind, any(t.holder is me for t in locks)))
+    d, a, b = make_dispatcher(hook, factory)
+    try:
+        phase[0] = "sendData"
+        d.sendData(b"probe-2")
+        phase[0] = "handle_write"
+        d.out_buffer  # noqa: B018  (an access outside: not counted, phase marker only)
+        del log[-1]
+        d.handle_write()
+    finally:
+        try:
+            d.del_channel()
+        except Exception:
+            pass
+        a.close()
+        b.close()
+    return log
+
+
 def generate():
     locked = probe()
+    log = probe_accesses()
+    sd = [x for x in log if x[0] == "sendData"]
+    hw = [x for x in log if x[0] == "handle_write"]
+    # the append of sendData = everything up to and including the first write of out_buffer
+    first_set = next((i for i, x in enumerate(sd) if x[1] == "set"), len(sd) - 1)
+    append, flush = sd[:first_set + 1], sd[first_set + 1:]
+    flush_locked = bool(hw) and all(x[2] for x in hw) and all(x[2] for x in flush)
+    append_locked = bool(append) and all(x[2] for x in append)
+    locked = locked and flush_locked
     return "\n".join([
         "/- REGENERATED on every run by running AsyncoreConnectionDispatcher of the current source on a socket pair: while sendData is",
         "   inside the socket send, can handle_write (the asyncore loop thread) reach its own socket send? — do not edit -/",
         "import YowsupVerif.Model.SendBuf",
         "namespace Yow.Gen",
-        "def sendBufCfg : Yow.SendBuf.Cfg := { locked := %s }" % ("true" if locked else "false"),
+        "-- accesses observed: sendData %s; handle_write %s" % (" ".join("%s%s" % (k, "+" if h else "-") for _p, k, h in sd), " ".join("%s%s" % (k, "+" if h else "-") for _p, k, h in hw)),
+        "def sendBufCfg : Yow.SendBuf.Cfg := { locked := %s, appendLocked := %s }" % ("true" if locked else "false", "true" if append_locked else "false"),
         "end Yow.Gen", ""])
 
 
